@@ -48,6 +48,16 @@ setup(const struct cfg *c, struct rt_desc *d)
     d->reg[2].type = REG_TYPE_SINT32;
     d->reg[2].addr = 21 + rt_tsize[c->type];
     d->reg[2].def.s32 = -559038737;
+    /* every second configuration has a second, register-less area behind the populated one (scratch memory):
+     * whatever initialisation does per area, it must finish properly when the last areas hold no register */
+    if ((c->type + c->ck + c->be) & 1) {
+        d->nareas = 2;
+        d->area[1].base = d->area[0].base + d->area[0].size + (uint32_t)(c->ck & 1);
+        d->area[1].size = 2;
+        d->area[1].readable = d->area[1].writeable = 1;
+        d->area[1].custom = !c->custom;
+        d->area[1].has_write = 1;
+    }
 }
 
 static const char *
